@@ -5,7 +5,7 @@ Each config/Cxx.py defines
   META  = {engine, design_ref, technique, text, note}        (texts for MANIFEST.json)
 A part = one harness executable run on one library flavour:
   name, harness (harness/<harness>.cc, or sources:[...]), flavour (rel|asan|tsan),
-  shards{tier:n}, deadline{tier:seconds}, tiers (default both),
+  shards{tier:n}, deadline{tier:seconds}, tiers (default both), depth{tier:harness tier} (optional),
   cflags/ldflags/libs/env/args (optional).
 """
 import glob, importlib.util, os
